@@ -24,6 +24,8 @@ CasesOf(e) ==
     \cup {[k |-> "retype", e |-> e, i |-> i] : i \in {j \in ParamIdx(e) : el.params[j].kind # "seq"}}
     \cup {[k |-> "seqlen", e |-> e, i |-> i, n |-> n] : i \in {j \in ParamIdx(e) : el.params[j].kind = "seq"}, n \in {0, 1, 3}}
     \cup {[k |-> "seqbad", e |-> e, i |-> i] : i \in {j \in ParamIdx(e) : el.params[j].kind = "seq"}}
+    \* the last item of a sequence of structs lacks its last field
+    \cup {[k |-> "seqhalf", e |-> e, i |-> i] : i \in {j \in ParamIdx(e) : el.params[j].kind = "seq" /\ Len(el.params[j].fields) > 1}}
     \cup {[k |-> "kid_absent", e |-> e, c |-> el.kids[i].tag] : i \in {j \in KidIdx(e) : el.kids[j].req}}
     \cup {[k |-> "kid_twice", e |-> e, c |-> el.kids[i].tag] : i \in {j \in KidIdx(e) : ~el.kids[j].many}}
     \cup {[k |-> "kid_wrongform", e |-> e, c |-> el.kids[i].tag] : i \in KidIdx(e)}
